@@ -20,6 +20,7 @@ import (
 	"io"
 	"time"
 
+	"github.com/dominant-strategies/go-quai/core/types"
 	"github.com/dominant-strategies/go-quai/log"
 	"github.com/dominant-strategies/go-quai/verifshim/vx"
 )
@@ -29,12 +30,13 @@ func init() {
 }
 
 type c08Replay struct {
-	Part string    `json:"part"`
-	A    *c08ACase `json:"threshold,omitempty"`
-	B    *c08BCase `json:"binding,omitempty"`
-	C    *c08CCase `json:"auxpow,omitempty"`
-	D    *c08DCase `json:"twin,omitempty"`
-	K    *c08kCase `json:"real_kernels,omitempty"`
+	Part string        `json:"part"`
+	A    *c08ACase     `json:"threshold,omitempty"`
+	B    *c08BCase     `json:"binding,omitempty"`
+	C    *c08CCase     `json:"auxpow,omitempty"`
+	D    *c08DCase     `json:"twin,omitempty"`
+	K    *c08kCase     `json:"real_kernels,omitempty"`
+	KP   *c08kPairCase `json:"real_kernels_pair,omitempty"`
 }
 
 func runC08(c *vx.Ctx) {
@@ -84,6 +86,14 @@ func replayC08(c *vx.Ctx, v vx.Violation) string {
 	log.Global.SetOutput(io.Discard)
 	if r.K != nil {
 		return c08kReplay(*r.K, v.Key)
+	}
+	if r.KP != nil {
+		h, err := c08kSeal(r.KP.Kernel)
+		if err != nil {
+			return "harness: " + err.Error()
+		}
+		_, d, _ := c08kRunPair(map[string]*types.WorkObjectHeader{r.KP.Kernel: h}, *r.KP)
+		return d
 	}
 	reg := "R2"
 	switch {
